@@ -38,7 +38,11 @@ ASSUMPTIONS = [
     "and control characters 0x01-0x1f/0x7f followed by digits or letters (decoded from the wire by the kvline "
     "reference); CR and LF inside values are C12's subject",
     "a SETCONF written while an earlier one is unanswered may or may not repeat the options the earlier one carries",
-    "FakeTor does not echo CONF_CHANGED for the controller's own SETCONF here (that path is C11's)",
+    "in half of the 'seq' cases Tor announces the controller's own accepted SETCONFs (CONF_CHANGED echo, after the 250 OK "
+    "or - like Tor versions that send events synchronously - before it); 'seq' cases also contain CONF_CHANGED events for "
+    "changes by another controller: the view then follows Tor, a pending local change stays as the application left it and "
+    "is what the next save delivers; no further in-place edit is generated on such an option until it is saved or "
+    "re-assigned (reads return Tor's list, so the target would be unspecified, like leniency L)",
     "in-place mutation of an option that also has a pending whole-value assignment is not generated (DESIGN C10 L)",
     "comma-list options are judged on the wire form only: one joined value or one item per element (DESIGN C10 L)",
     "an option whose pending value equals what Tor already holds may or may not be named by the SETCONF",
@@ -74,6 +78,7 @@ FLOORS = {
               "reads_compared": 1300, "second_save_checks": 600, "midack_edits": 80, "inplace_ops": 500,
               "escaped_values_decoded": 80, "assigned_from_other_option": 150, "overlapping_saves": 120,
               "overlap_outcomes_checked": 50, "invalid_assignments": 100, "invalid_assignments_on_pending_option": 25,
+              "foreign_events": 150, "foreign_events_on_pending_option": 40,
               "reach:txtorcon.torconfig:TorConfig.save": 1500,
               "reach:txtorcon.torconfig:TorConfig.mark_unsaved": 500,
               "reach:txtorcon.torconfig:TorConfig._save_completed": 650,
@@ -135,8 +140,17 @@ def wire(v):
     return [str(x) for x in v] if isinstance(v, list) else v
 
 
+def tor_list(w):
+    """what Tor holds after 'K=w0 K=w1 ...' for a line-list option: an empty value clears what came before"""
+    if "" in w:
+        w = w[len(w) - w[::-1].index(""):]
+    return list(w)
+
+
 class Model(object):
-    def __init__(self, table):
+    def __init__(self, table, echo=False):
+        self.echo = echo          # Tor announces the controller's own accepted SETCONFs (CONF_CHANGED)
+        self.shadow = set()       # options whose view was replaced by a CONF_CHANGED while a local change is pending
         self.types = {}
         self.view = {}        # what Tor holds as the client should see it: str | None | [str]
         self.fuzzy = set()
@@ -175,12 +189,14 @@ class Model(object):
         if st.get("invalid"):
             return                # rejected by validation: nothing changes
         self.serial += 1
+        if st["op"] == "assign":
+            self.shadow.discard(n)
         if st["op"] == "assign" and st.get("from"):
             # the value is whatever the view of the source option returns at this moment
             y = st["from"]["opt"]
             if st["from"]["other"]:
                 val = list(self.initial[y])
-            elif y in self.pending and self.pending[y][0] == "inplace":
+            elif y in self.pending and self.pending[y][0] == "inplace" and y not in self.shadow:
                 val = list(self.pending[y][1])
             else:
                 val = list(self.view[y])
@@ -203,9 +219,31 @@ class Model(object):
         """Tor accepted `delivered`; an option edited again since it was sent stays pending
         (as a no-op change if the new value is the one just saved)"""
         for n, hv in delivered.items():
-            self.view[n] = hv[1]
+            v = hv[1]
+            if self.echo and isinstance(v, list) and wire(v) != wire(self.view[n]):
+                # the echo replaces the view by what Tor reports: strings, as Tor's grammar took them
+                v = [x for x in wire(v) if x != ""] if self.kind(n) == "commalist" else tor_list(wire(v))
+            self.view[n] = v
             if n in self.pending and self.pending[n][2] == hv[2]:
                 del self.pending[n]
+                self.shadow.discard(n)
+
+    def event(self, items):
+        """CONF_CHANGED for a change made by another controller: the view follows Tor, a pending local change stays
+        as the application left it (it is what the next save delivers)"""
+        groups = {}
+        for k, v in items:
+            groups.setdefault(k, [])
+            if v is not None:
+                groups[k].append(v)
+        for n, vals in groups.items():
+            t = self.types[n]
+            if CT.is_listy(t):
+                self.view[n] = CT.ref_read(t, vals, self.defaults.get(n))
+            else:
+                self.view[n] = vals[-1] if vals else ((self.defaults.get(n) or [None])[-1])
+            if n in self.pending:
+                self.shadow.add(n)
 
 
 # ---------------------------------------------------------------------------
@@ -219,7 +257,13 @@ NASTY = ['say "hi"', '"quoted"', 'C:\\tor\\data', 'back\\slash "and" quote', 'ta
 CTRL = ['bell\x0712', '\x011', 'a\x1f7z', '\x7f0', 'x\x0bq', '\x078', 'tab\x0934', '\x1b[0m', 'nul-ish\x01', '\x0c\x0e5 6']
 
 
+PLAIN = [False]     # set while generating a case with Tor's echo on: values must survive Tor's (escaped) event
+#                     rendering and txtorcon's reply parsing unchanged - that decoding is C13's subject, not C10's
+
+
 def nasty(rnd, plain):
+    if PLAIN[0]:
+        return plain
     if rnd.random() < 0.25:
         # control characters other than CR/LF, followed by octal digits / '8' / letters (octal escapes on the wire)
         c = rnd.choice(CTRL)
@@ -294,8 +338,8 @@ def odd_elem(rnd, typ):
     if k == "commalist":
         return rnd.choice([0, 0, 80, 443, 9001])
     if k == "portlist":
-        return rnd.choice([0, 0, 9001, 9002, 1337, False, ""])
-    return rnd.choice([0, 0, 7, False, True, "", ""])
+        return rnd.choice([0, 0, 9001, 9002, 1337, False] + ([] if PLAIN[0] else [""]))
+    return rnd.choice([0, 0, 7, False, True] + ([] if PLAIN[0] else ["", ""]))
 
 
 def gen_elem(rnd, typ):
@@ -397,8 +441,9 @@ def gen_edit(rnd, m, exclude_assigned_inflight=()):
         listy = k != "scalar"
         pend = m.pending.get(n)
         if listy and rnd.random() < 0.7:
-            if (pend and pend[0] == "assign") or n in exclude_assigned_inflight:
-                continue                      # leniency L: no in-place on a pending whole-value assignment
+            if (pend and pend[0] == "assign") or n in exclude_assigned_inflight or n in m.shadow:
+                continue                      # leniency L: no in-place on a pending whole-value assignment, nor on an
+                #                               option whose view a CONF_CHANGED replaced while a local edit is pending
             meth, args = gen_inplace(rnd, m, n)
             return {"op": "inplace", "name": CT.anycase(rnd, n), "opt": n, "method": meth, "args": args}
         if k == "commalist" and rnd.random() < 0.3:
@@ -415,7 +460,7 @@ def gen_assign_from(rnd, m, other=None):
         if m.kind(x) == "scalar":
             continue
         ys = [y for y in m.order if y != x and m.kind(y) == m.kind(x)
-              and not (y in m.pending and m.pending[y][0] == "assign")]
+              and not (y in m.pending and m.pending[y][0] == "assign") and y not in m.shadow]
         if not ys:
             continue
         y = rnd.choice(ys)
@@ -575,6 +620,22 @@ def gen_overlap_case(rnd, table):
     return steps
 
 
+def gen_foreign_event(rnd, m, table):
+    """another controller changed 1-3 options: CONF_CHANGED; preferably options with a pending local change"""
+    pend = [o for o in table if o["name"] in m.pending]
+    opts = rnd.sample(pend, min(len(pend), rnd.choice([1, 1, 2]))) if pend and rnd.random() < 0.7 else []
+    opts += [o for o in rnd.sample(table, rnd.choice([0, 1, 2])) if o not in opts]
+    if not opts:
+        opts = [rnd.choice(table)]
+    items = []
+    for o in opts:
+        vals = CT.gen_values(rnd, o["type"], rnd.choice(["unset", "single", "multi", "multi"]))
+        if CT.kind_of(o["type"]) == "commalist" and not vals:
+            vals = CT.gen_values(rnd, o["type"], "single")
+        items += [[o["name"], v] for v in vals] or [[o["name"], None]]
+    return {"op": "event", "items": items}
+
+
 def gen_reply(rnd):
     r = rnd.random()
     return "ok" if r < 0.68 else (513 if r < 0.84 else 552)
@@ -586,7 +647,9 @@ def gen_case(rnd, mode):
         return {"mode": mode, "table": table, "steps": gen_alias_case(rnd, table)}
     if mode == "overlap":
         return {"mode": mode, "table": table, "steps": gen_overlap_case(rnd, table)}
-    m = Model(table)
+    echo = rnd.choice([False, False, "after", "before"]) if mode == "seq" else False
+    PLAIN[0] = bool(echo)
+    m = Model(table, echo=echo)
     steps = []
     if mode == "midack":
         for _ in range(rnd.choice([0, 1, 1, 2, 3])):
@@ -622,13 +685,17 @@ def gen_case(rnd, mode):
             steps.append({"op": "save", "reply": rep})
             if rep == "ok":
                 m.ack(dict(m.pending))
+        elif rnd.random() < 0.12:
+            st = gen_foreign_event(rnd, m, table)
+            m.event(st["items"])
+            steps.append(st)
         else:
             st = gen_assign_from(rnd, m) if rnd.random() < 0.06 else None
             st = st or gen_edit(rnd, m)
             m.edit(st)
             steps.append(st)
     steps.append({"op": "save", "reply": "ok"})
-    return {"mode": mode, "table": table, "steps": steps}
+    return {"mode": mode, "table": table, "steps": steps, "echo": echo}
 
 
 # ---------------------------------------------------------------------------
@@ -677,10 +744,11 @@ class Run(object):
     def __init__(self, case, rec):
         self.case = case
         self.rec = rec
-        self.m = Model(case["table"])
+        self.m = Model(case["table"], echo=case.get("echo") or False)
         self.rejected_before = False
         self.decoded = 0
         self.overlap_tag = None
+        self.evented = set()         # options that had a pending local change when a CONF_CHANGED named them
         self.failed_assign = set()   # options that had a pending change when an assignment to them failed validation
         self.other = None            # a second, never edited TorConfig over the same table (source of values)
 
@@ -695,6 +763,10 @@ class Run(object):
         parts.extend(extra)
         if n in self.failed_assign:
             parts.append("after-failed-assignment")
+        if n in self.evented:
+            parts.append("after-conf-changed-for-it")
+        if self.m.echo:
+            parts.append("echo-" + self.m.echo)
         if self.overlap_tag:
             parts.append("after-" + self.overlap_tag)
         elif self.rejected_before:
@@ -877,8 +949,10 @@ class Run(object):
                     self.V("store-differs-from-pending", self.cls(n), {"option": n, "store": got, "want": wl})
             m.ack(delivered)
             self.failed_assign -= set(delivered)
+            self.evented -= set(delivered)
             if cfg.needs_save() and not m.pending:
-                self.V("needs-save-true-after-ack", "general", {"unsaved": repr(dict(cfg.unsaved))[:300]})
+                self.V("needs-save-true-after-ack", ("echo-" + m.echo) if m.echo else "general",
+                       {"unsaved": repr(dict(cfg.unsaved))[:300]})
             # reads return the saved values (= the store)
             for n in delivered:
                 if m.kind(n) == "commalist" or (isinstance(m.view[n], list) and "" in wire(m.view[n])):
@@ -926,6 +1000,30 @@ class Run(object):
         if len(link.transport.writes) != n0:
             self.V("second-save-wrote", "nothing-pending",
                    {"written": b"".join(d for _, d in link.transport.writes[n0:])})
+
+    def foreign_event(self, st, cfg, tor, link):
+        """CONF_CHANGED for another controller's change: nothing is written, nothing becomes or stops being pending"""
+        m, rec = self.m, self.rec
+        had = set(m.pending)
+        n0 = len(link.transport.writes)
+        changed = tor.external_change([(k, v) for k, v in st["items"]])
+        link.pump()
+        m.event(st["items"])
+        rec.count("foreign_events")
+        names = sorted({k for k, _ in st["items"]})
+        on_pending = [n for n in names if n in had and n in changed]
+        if on_pending:
+            rec.count("foreign_events_on_pending_option")
+            self.evented.update(on_pending)
+        kinds = "+".join(sorted({m.kind(n) + ("-pending-" + m.pending[n][0] if n in had else "") for n in names}))
+        if len(link.transport.writes) != n0:
+            self.V("write-on-conf-changed", kinds, {"written": b"".join(d for _, d in link.transport.writes[n0:])})
+        if m.must() and not cfg.needs_save():
+            self.V("pending-lost-on-conf-changed", kinds, {"pending": {k: v[1] for k, v in m.must().items()}})
+        if not m.pending and cfg.needs_save():
+            self.V("conf-changed-made-option-pending", kinds, {"unsaved": repr(dict(cfg.unsaved))[:300]})
+        if link.exceptions:
+            self.V("exception-escaped", kinds, {"exceptions": link.exceptions})
 
     def overlap(self, st, cfg, tor, link, spell):
         """2-3 save() calls outstanding at once: save, edits, save, [edits, save], [edits]; then Tor answers
@@ -1073,7 +1171,9 @@ class Run(object):
 
     def run(self):
         case, rec, m = self.case, self.rec, self.m
-        cfg, fail, proto, tor, link = CT.boot(case["table"])
+        cfg, fail, proto, tor, link = CT.boot(case["table"], echo=case.get("echo") or False)
+        if case.get("echo"):
+            rec.seen("echo_modes", case["echo"])
         if cfg is None:
             rec.violation("bootstrap-failed", type(getattr(fail, "value", fail)).__name__,
                           {"failure": str(fail)[:300]}, case)
@@ -1087,6 +1187,9 @@ class Run(object):
                     continue
                 if st["op"] == "overlap":
                     self.overlap(st, cfg, tor, link, spell)
+                    continue
+                if st["op"] == "event":
+                    self.foreign_event(st, cfg, tor, link)
                     continue
                 reply = st["reply"]
                 expected = dict(m.pending)
